@@ -226,6 +226,13 @@ def run(case):
                 else:
                     pv, pexc = libcall(dtw.distance, np.array(S3[a_], dtype=np.double), np.array(S3[b_], dtype=np.double),
                                        use_c=False, use_ndim=True, **kw)
+                md = case.get('max_dist')
+                if pexc is None and md and (pv == ref.inf) != (v == ref.inf) and \
+                        ref.close(min(pv, v), md):
+                    # the threshold was constructed away from d(s1, s2) but happens to coincide with the distance of
+                    # this other pair: which side of the threshold a value within rounding of it falls on is not fixed
+                    res.count('matrix3_threshold_at_distance')
+                    continue
                 if pexc is None and not ref.close(pv, v):
                     res.fail('matrix3:c-deviates:%s' % case.get('inner'),
                              '%s entry (%d,%d)=%r, python single pair %r' % (name, a_, b_, v, pv))
